@@ -108,3 +108,73 @@ let () =
       match v with
       | List [g] -> List [Atom "wf"; Atom (if List.for_all Printer.wf_stmt (grammar_of g) then "1" else "0")]
       | _ -> raise (Shape "wf args"))
+
+(* render "<path>" "<source>" l:c:e -> (ok "<path:line:col:>" <line number> "<quoted source line>" <from> <to>)
+                                      | (panic "<site>")          [Model/Diag.v: main.rs ErrMsg/WarnMsg] *)
+let () =
+  register "render" (fun v ->
+      match v with
+      | List [path; source; sp] ->
+          (match Extracted.Diag.render (cl (string_ path)) (cl (string_ source)) (span_of sp) with
+           | Prelude.Ok r ->
+               let (a, b) = r.Extracted.Diag.r_cols in
+               List [Atom "ok"; ss r.Extracted.Diag.r_header; sn r.Extracted.Diag.r_line_no;
+                     ss r.Extracted.Diag.r_line; sn a; sn b]
+           | Prelude.Err () -> List [Atom "err"]
+           | Prelude.Panic s -> List [Atom "panic"; ss s]
+           | Prelude.OutOfFuel -> List [Atom "outoffuel"])
+      | _ -> raise (Shape "render args"))
+
+(* diag "<path>" "<source>" <payload> -> ((msg e|w "label" "what" "help"|- <rendered>)...)
+   payload: (parse l:c:e) | (check (<Variant> spans...)) | (regex (UnboundedMatchable a b))
+          | (warnings (undefined ("n" span)...) (unused ...) (unusedspecs ...))
+   <rendered> = (ok "path:line:col:" <line number> "<quoted line>" <from> <to>) | (panic "<site>")
+   [Model/Diag.v: handle_error and the warning loops of main.rs] *)
+module Diag = Extracted.Diag
+module Check = Extracted.Check
+
+let cerror_of (v : t) : Check.cerror =
+  match v with
+  | List [Atom "MissingCallVariants"] -> Check.MissingCallVariants
+  | List (Atom "VaryingCommandNames" :: l) -> Check.VaryingCommandNames (List.map span_of l)
+  | List [Atom "InvalidCommandName"; s] -> Check.InvalidCommandName (span_of s)
+  | List [Atom "DuplicateNonterminalDefinition"; a; b] -> Check.DuplicateNonterminalDefinition (span_of a, span_of b)
+  | List [Atom "UnknownShell"; s] -> Check.UnknownShell (span_of s)
+  | List [Atom "NonCommandSpecialization"; s] -> Check.NonCommandSpecialization (span_of s)
+  | List (Atom "NonterminalDefinitionsCycle" :: l) -> Check.NonterminalDefinitionsCycle (List.map span_of l)
+  | List [Atom "SubwordSpaces"; a; b; List tr] -> Check.SubwordSpaces (span_of a, span_of b, List.map span_of tr)
+  | v -> raise (Shape ("cerror: " ^ to_string v))
+
+let named_of (v : t) : (char list * Ast.span) list =
+  match v with
+  | List (_ :: l) -> List.map (function List [n; sp] -> (cl (string_ n), span_of sp) | _ -> raise (Shape "named")) l
+  | _ -> raise (Shape "named list")
+
+let () =
+  register "diag" (fun v ->
+      match v with
+      | List [path; source; payload] ->
+          let path = cl (string_ path) and source = cl (string_ source) in
+          let msgs =
+            match payload with
+            | List [Atom "parse"; sp] -> Diag.error_messages (Extracted.Driver.DParse (span_of sp))
+            | List [Atom "check"; e] -> Diag.error_messages (Extracted.Driver.DCheck (cerror_of e))
+            | List [Atom "regex"; List [Atom "UnboundedMatchable"; a; b]] ->
+                Diag.error_messages (Extracted.Driver.DRegex (Extracted.Regex.UnboundedMatchable (span_of a, span_of b)))
+            | List [Atom "warnings"; u; n; s] ->
+                let dummy = Ast.Sequence ([], { Ast.sline = n_of_int 0; scol = n_of_int 0; secol = n_of_int 0 }) in
+                Diag.warning_messages { Check.v_command = []; v_expr = dummy; v_undefined = named_of u;
+                                        v_unused = named_of n; v_unused_specs = named_of s }
+            | v -> raise (Shape ("diag payload: " ^ to_string v)) in
+          List (List.map (fun m ->
+                    let rendered =
+                      match Diag.render path source m.Diag.m_span with
+                      | Prelude.Ok r ->
+                          let (a, b) = r.Diag.r_cols in
+                          List [Atom "ok"; ss r.Diag.r_header; sn r.Diag.r_line_no; ss r.Diag.r_line; sn a; sn b]
+                      | Prelude.Err () -> List [Atom "err"]
+                      | Prelude.Panic s -> List [Atom "panic"; ss s]
+                      | Prelude.OutOfFuel -> List [Atom "outoffuel"] in
+                    List [Atom "msg"; Atom (if m.Diag.m_warning then "w" else "e"); ss m.Diag.m_label;
+                          ss m.Diag.m_what; sos m.Diag.m_help; rendered]) msgs)
+      | _ -> raise (Shape "diag args"))
